@@ -207,7 +207,40 @@ FormatterToText::characters(
         {
             if (chars[i] > m_maxCharacter)
             {
-                //$$$ ToDo: Figure out what we're going to do here...
+                // A character that cannot be represented in the output
+                // encoding is an error...
+                XalanUnicodeChar    theChar = chars[i];
+
+                const bool  isSurrogatePair =
+                    0xd800 <= chars[i] && chars[i] < 0xdc00 &&
+                    i + 1 < length &&
+                    0xdc00 <= chars[i + 1] && chars[i + 1] < 0xe000;
+
+                if (isSurrogatePair == true)
+                {
+                    theChar = ((chars[i] - 0xd800) << 10) + chars[i + 1] - 0xdc00 + 0x00010000;
+                }
+
+                const XalanOutputStream* const  theStream = m_writer->getStream();
+
+                if (theStream != 0 && theStream->canTranscodeTo(theChar) == false)
+                {
+                    XalanDOMString  theBuffer(getMemoryManager());
+
+                    throw XalanTranscodingServices::UnrepresentableCharacterException(
+                                theChar,
+                                theStream->getOutputEncoding(),
+                                theBuffer);
+                }
+
+                if (isSurrogatePair == true)
+                {
+                    // Write the high surrogate here, so the low
+                    // surrogate is not checked on its own...
+                    m_writer->write(chars[i]);
+
+                    ++i;
+                }
             }
 
 #if defined(XALAN_NEWLINE_IS_CRLF)
